@@ -30,18 +30,18 @@ CLAIMED = {
  "C08": ("two-lineage monitor: original state versus a state rebuilt from serialized block + rebuilt stake set + node-by-node copy of the content-addressed store, fed identical continuations",
          "After every sealed block of random histories a restarted lineage is created and fed the same next 5 blocks (valid and hostile batches, proposer actions); accept/reject and the whole header must agree after every step. Restart points cover with/without action, pending tips, empty blocks, epoch boundaries, testnet 499->500 and fabricated mainnet activation heights.",
          "The copied store is an in-process deep copy (no shared memory with the original), not a real disk.", "6/C08"),
- "C09": ("panic/abort monitor (catch_unwind + panic hook recording message, location and originating crate; one process per shard with a journal) around every API call on hostile workloads",
+ "C09": ("panic/abort monitor (catch_unwind + panic hook recording message, location and originating crate; one process per shard with a journal) around every API call on hostile workloads; stack-depth probes in subprocesses; valgrind memcheck and AddressSanitizer shards in the thorough tier",
          "Random histories on all network classes with one hostile mutation per batch (16 field mutators + byte-level mutation that still deserializes), degenerate requests (zero-valued pool requests, empty/garbage/partial MelPoW proofs at all difficulties, undecodable stake documents, faucet-minted liquidity tokens, maximal values), extreme proposer deltas; apply_tx_batch, seal, next_unsealed, apply_block, confirm, from_block are all called under the monitor; deterministic probes replay the crash-class inputs of DESIGN section 9.",
-         "Supply kept below 2^127 by construction (the property's precondition); overflow traps that exist only because dependency generics are instantiated with overflow checks are excluded (checked against a production-like build); hangs are bounded by the driver's watchdog and reported inconclusive.", "6/C09"),
- "C10": ("differential monitor against an independent reference interpreter, final result through the public API and pc/stack/heap in lockstep through the hooked executor",
+         "Supply kept below 2^127 by construction (the property's precondition); overflow traps that exist only because dependency generics are instantiated with overflow checks are excluded (checked against a production-like build); hangs are bounded by the driver's watchdog and reported inconclusive. Thorough tier adds a valgrind memcheck shard (observer) and an AddressSanitizer shard (a memory error there is a violation).", "6/C09"),
+ "C10": ("differential monitor against an independent reference interpreter, final result through the public API and pc/stack/heap in lockstep through the hooked executor; AddressSanitizer and Miri stages in the thorough tier",
          "All programs of length <= 4 over a 16-instruction alphabet x 3 heaps are enumerated; ~10^5 (quick) type-aware random programs with counted/nested loops, jumps in and out of loops, boundary operands and mixed types, random decodable lists and environment-reading programs over random transactions/headers are run on both interpreters; millions of intermediate machine states are compared per run.",
-         "Corners the specification does not pin down (shift >= 256, loop body past the end or empty, lengths > 2^22) are excluded and counted; ed25519 and blake3 are trusted.", "6/C10"),
+         "Shift counts are taken modulo 256 (DESIGN 5.6). Corners the specification does not pin down (loop body past the end or empty, lengths > 2^22) are excluded and counted; ed25519 and blake3 are trusted. Thorough tier adds an AddressSanitizer run of half the quick workload and a token run under Miri (observers: reports are recorded; a monitor violation seen there counts).", "6/C10"),
  "C11": ("resource monitors on adversarial program families: hooked step counter vs weight, hooked weigh-work counter, counting allocator, with explicit polynomial budgets",
          "Nested/sibling/overrunning loops up to depth 22 (40 thorough), jump-heavy code, and byte/vector self-append doubling up to 70 rounds followed by each consuming opcode in every operand position are grown until the first budget excess: executed instructions <= weight exactly; weighing work <= 4n^2+64 visits; peak memory <= 1 MiB + 4 KiB*(weight+code+heap), cumulative <= 64x.",
          "Budgets are explicit constants chosen with >= 100x slack over linear-time behaviour; wall-clock is recorded but never decides. Lengths >= 2^64 trap only under overflow checks inside the catvec dependency and are excluded (verified silent in a production-like build).", "6/C11"),
  "C12": ("exhaustive + randomized differential monitor of the codec against an independent reference decoder/encoder",
          "All 16.8M byte strings of length <= 3 are enumerated on every run, plus operand-class, truncation, trailing-byte, mutated and random-instruction-list cases; each is checked for decodability agreement, both round trips, and weight/hash equality bytes vs instructions vs reference.",
-         "Exhaustive only up to 3 bytes; longer inputs are sampled. The reference decoder was written from the opcode table.", "6/C12"),
+         "Exhaustive only up to 3 bytes; longer inputs are sampled, including programs of up to ~135000 instructions around the 2^8/2^16/2^17 instruction counts. The reference decoder was written from the opcode table. Thorough tier adds a token run under Miri.", "6/C12"),
  "C13": ("stake-model monitor: registry, vote tallies and stake commitment compared after every batch/block, plus spend attempts on every stake coin across real epoch boundaries",
          "Histories fabricated 1-3 blocks before k*200000 on networks/heights outside the legacy windows, with pre-existing stakes ending in the current/next/later epochs and stake transactions in every ordering of (current,start,end), amount mismatches, wrong denominations and undecodable documents; registered set, votes()/total_votes() over 5 epochs and stakes_hash follow the model; each registered stake's coin is refused (same batch, same block, later blocks) until the epoch after `end`, then accepted.",
          "Legacy windows (mainnet/testnet below 500000/900000) are outside the property's domain and exercised under C09.", "6/C13"),
